@@ -5,6 +5,7 @@ import Nuts.Model.Tx
 import NutsProofs.Lemmas.Isolation
 import NutsProofs.Pins.SetDS
 import NutsProofs.Pins.TxApi
+import NutsProofs.Pins.TxApiSet
 namespace NutsProofs.C06
 open Nuts Nuts.Model Nuts.Model.SetDS
 
@@ -231,10 +232,11 @@ theorem setStep_nodup (mem : List Bytes) (r : Rec) (h : mem.Nodup) : (setStep me
       · exact List.Nodup.sublist List.filter_sublist h
     · exact h
 
-/-- **regenerated tie.** On this run, the set calls of the transactional API (`sPut` one record per member, `SPop`, the two-set reads and moves) are the source lines `Nuts.Model.Tx` was written from
-(`NutsProofs.Facts.expectedTxApiStmts`). -/
-theorem C06_tx_api_regenerated : NutsGen.F.txApiStmts = NutsProofs.Facts.expectedTxApiStmts :=
-  NutsProofs.Facts.tx_api_ok
+/-- **regenerated tie.** On this run, the set calls of the transactional API (`sPut` one record per member, `SPop`, the two-set reads and moves) and `tx.put` are the source lines `Nuts.Model.Tx` was written from (`NutsProofs.Facts.expectedTxApiCore`, `expectedTxApiSet`). -/
+theorem C06_tx_api_regenerated :
+    NutsProofs.Facts.txApiOfCore = NutsProofs.Facts.expectedTxApiCore ∧
+    NutsProofs.Facts.txApiOfSet = NutsProofs.Facts.expectedTxApiSet :=
+  ⟨NutsProofs.Facts.tx_api_core_ok, NutsProofs.Facts.tx_api_set_ok⟩
 
 /-- **regenerated tie.** every condition, loop and call of ds/set/set.go is, on this run, the source `Nuts.Model.SetDS` was written from (`NutsProofs.Facts.expectedSetStmts`). -/
 theorem C06_set_statements_regenerated : NutsGen.F.setStmts = NutsProofs.Facts.expectedSetStmts :=
